@@ -82,6 +82,8 @@ def _audit(event, args):
         path, mode, flags = (list(args) + [None, None, None])[:3]
         if flags is not None and (flags & (os.O_WRONLY | os.O_RDWR | os.O_CREAT | os.O_TRUNC | os.O_APPEND)):
             _event("open_write", path)
+        elif _S.get("on_event") is not None and _S.get("reads"):
+            _event("open_read", path)   # scheduling mode only: a reader can be preempted between its existence check and its open
     elif event in ("os.remove", "os.rmdir", "os.mkdir", "os.truncate"):
         _event(event[3:], args[0])
     elif event == "os.rename":
